@@ -503,6 +503,47 @@ func runND(c *Ctx, s *Sink) {
 					return true
 				})
 			}
+			// (g) a table rebuilt under keys COMPUTED from the keys of the ranged map: two keys may be given the same new key, and the
+			// value kept is then the last visited
+			if bad == "" && strings.HasSuffix(p.PkgPath, "/pkg/obiseq") {
+				rk := rootObj(info, rs.Key)
+				ast.Inspect(rs.Body, func(m ast.Node) bool {
+					as, ok := m.(*ast.AssignStmt)
+					if !ok || bad != "" || as.Tok != token.ASSIGN {
+						return true
+					}
+					for _, l := range as.Lhs {
+						ix, ok := ast.Unparen(l).(*ast.IndexExpr)
+						if !ok {
+							continue
+						}
+						if _, isMap := info.TypeOf(ix.X).Underlying().(*types.Map); !isMap {
+							continue
+						}
+						call, isCall := ast.Unparen(ix.Index).(*ast.CallExpr)
+						if !isCall || rk == nil {
+							continue
+						}
+						if tv, ok := info.Types[call.Fun]; ok && tv.IsType() {
+							continue // a conversion is injective
+						}
+						if fn := callee(info, call); fn != nil && ndInjective[fn.Name()] != "" {
+							continue
+						}
+						uses := false
+						ast.Inspect(call, func(q ast.Node) bool {
+							if id, ok := q.(*ast.Ident); ok && info.ObjectOf(id) == rk {
+								uses = true
+							}
+							return true
+						})
+						if uses {
+							bad = "a table is rebuilt under keys computed from the keys of a Go map it ranges over: when two keys are given the same new key the value kept is the last visited, which changes from run to run — obicomplement of a record holding the mismatches (T:10)->(A:20) and (U:10)->(A:20) writes position 4 in some runs and 8 in others"
+						}
+					}
+					return true
+				})
+			}
 			if bad != "" {
 				s.Fail(nil, key, rs.Pos(), bad)
 			} else {
@@ -533,4 +574,10 @@ func ndIndexedByKey(info *types.Info, call *ast.CallExpr, rs *ast.RangeStmt) boo
 		return false
 	}
 	return rootObj(info, ix.Index) != nil && rootObj(info, ix.Index) == rootObj(info, rs.Key)
+}
+
+
+// ndInjective: functions computing a key that cannot give two keys the same image — one line of reason each.
+var ndInjective = map[string]string{
+	"StatsOnSlotName": "prefixes the name with a constant",
 }
